@@ -30,6 +30,11 @@ var commands = map[string]func([]string){
 	"parse-cases":  cmdParseCases,
 	"parse-texts":  cmdParseTexts,
 	"parse-groups": cmdParseGroups,
+	"lex-enum":     cmdLexEnum,
+	"lex-one":      cmdLexOne,
+	"sql-read":     cmdSQLRead,
+	"quote-enum":   cmdQuoteEnum,
+	"quote-one":    cmdQuoteOne,
 }
 
 func main() {
